@@ -24,6 +24,21 @@ def run_path(I, contract, variant, mod, ci, fnode, cover_out):
     if isinstance(env0, tuple):
         env0, extra = env0
     I.ghost.update(extra)
+    if not contract.harness:
+        # parameters the setup did not bind take their declared defaults (as at a real call)
+        a = fnode.args
+        params = a.posonlyargs + a.args
+        first_default = len(params) - len(a.defaults)
+        for i, p in enumerate(params):
+            if p.arg not in env0 and i >= first_default:
+                env0[p.arg] = I.eval_default(a.defaults[i - first_default], mod)
+        for p, d in zip(a.kwonlyargs, a.kw_defaults):
+            if p.arg not in env0 and d is not None:
+                env0[p.arg] = I.eval_default(d, mod)
+        if a.kwarg is not None and a.kwarg.arg not in env0:
+            env0[a.kwarg.arg] = PyDict({})
+        if a.vararg is not None and a.vararg.arg not in env0:
+            env0[a.vararg.arg] = ()
     fr0 = Frame(mod, env0, label="<entry>")
     I.frames.append(fr0)
     try:
